@@ -42,6 +42,9 @@ theorem quiet_true_all_diag : ∀ (l : List Ev), quiet true l = true → l.all E
     · simp only [he, if_true] at h; simp [he, quiet_true_all_diag es h]
     · simp [he] at h
 
+/-- no object holds a property name twice -/
+def ObjsOk (σ : Store) : Prop := ∀ (i : Nat) (ps : List (Name × Val)), σ.objs[i]? = some ps → (ps.map (·.1)).Nodup
+
 structure Ext (σ σ' : Store) : Prop where
   envs_len : σ.envs.length ≤ σ'.envs.length
   env_keep : ∀ (i : Nat) (fr : Frame), σ.envs[i]? = some fr → ∃ fr' : Frame, σ'.envs[i]? = some fr' ∧ fr'.parent = fr.parent ∧
@@ -54,15 +57,18 @@ structure Ext (σ σ' : Store) : Prop where
       σ'.hadError = (σ.hadError || new.any Ev.isDiag)
   frozen : σ.hadError = true → σ'.out = σ.out ∧ σ'.input = σ.input ∧ σ'.nativeCalls = σ.nativeCalls
   diags_ext : ∃ d, σ'.diags = σ.diags ++ d
+  /-- objects stay well-formed: if no object of `σ` holds a key twice, none of `σ'` does -/
+  objs_nodup : ObjsOk σ → ObjsOk σ'
 
 namespace Ext
 
 theorem refl (σ : Store) : Ext σ σ :=
   ⟨Nat.le_refl _, fun i fr h => ⟨fr, h, rfl, fun _ h => h⟩, fun i xs h => ⟨xs, h, rfl⟩, Nat.le_refl _, fun _ _ h => h,
-   fun h => h, ⟨[], by simp, rfl, by simp⟩, fun _ => ⟨rfl, rfl, rfl⟩, ⟨[], by simp⟩⟩
+   fun h => h, ⟨[], by simp, rfl, by simp⟩, fun _ => ⟨rfl, rfl, rfl⟩, ⟨[], by simp⟩, fun h => h⟩
 
 theorem trans {a b c : Store} (h1 : Ext a b) (h2 : Ext b c) : Ext a c := by
-  refine ⟨Nat.le_trans h1.envs_len h2.envs_len, ?_, ?_, Nat.le_trans h1.objs_len h2.objs_len, ?_, ?_, ?_, ?_, ?_⟩
+  refine ⟨Nat.le_trans h1.envs_len h2.envs_len, ?_, ?_, Nat.le_trans h1.objs_len h2.objs_len, ?_, ?_, ?_, ?_, ?_,
+    fun h => h2.objs_nodup (h1.objs_nodup h)⟩
   · intro i fr h
     obtain ⟨fr1, e1, p1, d1⟩ := h1.env_keep i fr h
     obtain ⟨fr2, e2, p2, d2⟩ := h2.env_keep i fr1 e1
@@ -88,13 +94,21 @@ theorem trans {a b c : Store} (h1 : Ext a b) (h2 : Ext b c) : Ext a c := by
 
 /-- a store that differs only in tables that grew by appending, with no observable event -/
 theorem of_tables (σ σ' : Store)
-    (henvs : ∃ ex, σ'.envs = σ.envs ++ ex) (harrs : ∃ ax, σ'.arrs = σ.arrs ++ ax) (hobjs : ∃ ox, σ'.objs = σ.objs ++ ox)
+    (henvs : ∃ ex, σ'.envs = σ.envs ++ ex) (harrs : ∃ ax, σ'.arrs = σ.arrs ++ ax)
+    (hobjs : ∃ ox, σ'.objs = σ.objs ++ ox ∧ ∀ ps ∈ ox, (ps.map (·.1)).Nodup)
     (hfuns : ∃ fx, σ'.funs = σ.funs ++ fx)
     (ho : σ'.out = σ.out) (hd : σ'.diags = σ.diags) (he : σ'.hadError = σ.hadError) (hi : σ'.input = σ.input)
     (hn : σ'.nativeCalls = σ.nativeCalls) (ht : σ'.trace = σ.trace) : Ext σ σ' := by
-  obtain ⟨ex, henvs⟩ := henvs; obtain ⟨ax, harrs⟩ := harrs; obtain ⟨ox, hobjs⟩ := hobjs; obtain ⟨fx, hfuns⟩ := hfuns
+  obtain ⟨ex, henvs⟩ := henvs; obtain ⟨ax, harrs⟩ := harrs; obtain ⟨ox, hobjs, hox⟩ := hobjs; obtain ⟨fx, hfuns⟩ := hfuns
   refine ⟨by simp [henvs], ?_, ?_, by simp [hobjs], ?_, by simp [he], ⟨[], by simp [ht], rfl, by simp [he]⟩,
-    fun _ => ⟨ho, hi, hn⟩, ⟨[], by simp [hd]⟩⟩
+    fun _ => ⟨ho, hi, hn⟩, ⟨[], by simp [hd]⟩, ?_⟩
+  rotate_left 3
+  · intro hok i ps h
+    rw [hobjs] at h
+    by_cases hlt : i < σ.objs.length
+    · rw [List.getElem?_append_left hlt] at h; exact hok i ps h
+    · rw [List.getElem?_append_right (by omega)] at h
+      exact hox ps (List.mem_of_getElem? h)
   · intro i fr h
     have hlt : i < σ.envs.length := (List.getElem?_eq_some_iff.mp h).1
     exact ⟨fr, by rw [henvs, List.getElem?_append_left hlt]; exact h, rfl, fun _ h => h⟩
@@ -106,36 +120,36 @@ theorem of_tables (σ σ' : Store)
     rw [hfuns, List.getElem?_append_left hlt]; exact h
 
 theorem newEnv (σ : Store) (p : Option Nat) : Ext σ (σ.newEnv p).1 :=
-  of_tables _ _ ⟨_, rfl⟩ ⟨[], by simp [Store.newEnv]⟩ ⟨[], by simp [Store.newEnv]⟩ ⟨[], by simp [Store.newEnv]⟩ rfl rfl rfl rfl rfl rfl
+  of_tables _ _ ⟨_, rfl⟩ ⟨[], by simp [Store.newEnv]⟩ ⟨[], by simp [Store.newEnv], by simp⟩ ⟨[], by simp [Store.newEnv]⟩ rfl rfl rfl rfl rfl rfl
 
 theorem newArr (σ : Store) (xs : List Val) : Ext σ (σ.newArr xs).1 :=
-  of_tables _ _ ⟨[], by simp [Store.newArr]⟩ ⟨_, rfl⟩ ⟨[], by simp [Store.newArr]⟩ ⟨[], by simp [Store.newArr]⟩ rfl rfl rfl rfl rfl rfl
+  of_tables _ _ ⟨[], by simp [Store.newArr]⟩ ⟨_, rfl⟩ ⟨[], by simp [Store.newArr], by simp⟩ ⟨[], by simp [Store.newArr]⟩ rfl rfl rfl rfl rfl rfl
 
-theorem newObj (σ : Store) (ps : List (Name × Val)) : Ext σ (σ.newObj ps).1 :=
-  of_tables _ _ ⟨[], by simp [Store.newObj]⟩ ⟨[], by simp [Store.newObj]⟩ ⟨_, rfl⟩ ⟨[], by simp [Store.newObj]⟩ rfl rfl rfl rfl rfl rfl
+theorem newObj (σ : Store) (ps : List (Name × Val)) (hps : (ps.map (·.1)).Nodup) : Ext σ (σ.newObj ps).1 :=
+  of_tables _ _ ⟨[], by simp [Store.newObj]⟩ ⟨[], by simp [Store.newObj]⟩ ⟨[ps], rfl, by simpa using hps⟩ ⟨[], by simp [Store.newObj]⟩ rfl rfl rfl rfl rfl rfl
 
 theorem newFun (σ : Store) (c : Closure) : Ext σ (σ.newFun c).1 :=
-  of_tables _ _ ⟨[], by simp [Store.newFun]⟩ ⟨[], by simp [Store.newFun]⟩ ⟨[], by simp [Store.newFun]⟩ ⟨_, rfl⟩ rfl rfl rfl rfl rfl rfl
+  of_tables _ _ ⟨[], by simp [Store.newFun]⟩ ⟨[], by simp [Store.newFun]⟩ ⟨[], by simp [Store.newFun], by simp⟩ ⟨_, rfl⟩ rfl rfl rfl rfl rfl rfl
 
 theorem rte (σ : Store) (msg : List Char) (line : Nat) : Ext σ (σ.rte msg line) := by
   refine ⟨Nat.le_refl _, fun i fr h => ⟨fr, h, rfl, fun _ h => h⟩, fun i xs h => ⟨xs, h, rfl⟩, Nat.le_refl _, fun _ _ h => h,
     fun _ => rfl, ⟨[.diag (.runtime msg line)], rfl, by simp [quiet, Ev.isDiag], by simp [Store.rte, Ev.isDiag]⟩,
-    fun _ => ⟨rfl, rfl, rfl⟩, ⟨_, rfl⟩⟩
+    fun _ => ⟨rfl, rfl, rfl⟩, ⟨_, rfl⟩, fun h => h⟩
 
 theorem print (σ : Store) (s : List Char) (h : σ.hadError = false) : Ext σ (σ.print s) := by
   refine ⟨Nat.le_refl _, fun i fr h => ⟨fr, h, rfl, fun _ h => h⟩, fun i xs h => ⟨xs, h, rfl⟩, Nat.le_refl _, fun _ _ h => h,
     (fun h' => by rw [h] at h'; cases h'), ⟨[.out s], rfl, by simp [quiet, Ev.isDiag, h], by simp [Store.print, Ev.isDiag]⟩,
-    (fun h' => by rw [h] at h'; cases h'), ⟨[], by simp [Store.print]⟩⟩
+    (fun h' => by rw [h] at h'; cases h'), ⟨[], by simp [Store.print]⟩, fun h => h⟩
 
 theorem enterNative (σ : Store) (h : σ.hadError = false) : Ext σ σ.enterNative := by
   refine ⟨Nat.le_refl _, fun i fr h => ⟨fr, h, rfl, fun _ h => h⟩, fun i xs h => ⟨xs, h, rfl⟩, Nat.le_refl _, fun _ _ h => h,
     (fun h' => by rw [h] at h'; cases h'), ⟨[.native], rfl, by simp [quiet, Ev.isDiag, h], by simp [Store.enterNative, Ev.isDiag]⟩,
-    (fun h' => by rw [h] at h'; cases h'), ⟨[], by simp [Store.enterNative]⟩⟩
+    (fun h' => by rw [h] at h'; cases h'), ⟨[], by simp [Store.enterNative]⟩, fun h => h⟩
 
 theorem consume (σ : Store) (rest : List Char) (h : σ.hadError = false) : Ext σ (σ.consume rest) := by
   refine ⟨Nat.le_refl _, fun i fr h => ⟨fr, h, rfl, fun _ h => h⟩, fun i xs h => ⟨xs, h, rfl⟩, Nat.le_refl _, fun _ _ h => h,
     (fun h' => by rw [h] at h'; cases h'), ⟨[.read], rfl, by simp [quiet, Ev.isDiag, h], by simp [Store.consume, Ev.isDiag]⟩,
-    (fun h' => by rw [h] at h'; cases h'), ⟨[], by simp [Store.consume]⟩⟩
+    (fun h' => by rw [h] at h'; cases h'), ⟨[], by simp [Store.consume]⟩, fun h => h⟩
 
 theorem upsert_keeps {α : Type} (k n : Name) (v : α) (ps : List (Name × α)) (h : (ps.lookup n).isSome = true) :
     ((upsert k v ps).lookup n).isSome = true := by
@@ -154,6 +168,49 @@ theorem upsert_keeps {α : Type} (k n : Name) (v : α) (ps : List (Name × α)) 
       · subst hn; rw [ListAux.lookup_cons_eq]; rfl
       · rw [ListAux.lookup_cons_ne n k' v' _ hn]; rw [ListAux.lookup_cons_ne n k' v' _ hn] at h; exact ih h
 
+theorem upsert_keys {α : Type} (k : Name) (v : α) (ps : List (Name × α)) :
+    (upsert k v ps).map (·.1) = if k ∈ ps.map (·.1) then ps.map (·.1) else ps.map (·.1) ++ [k] := by
+  induction ps with
+  | nil => simp [upsert]
+  | cons p ps ih =>
+    obtain ⟨k', v'⟩ := p
+    unfold upsert
+    by_cases hk : k' = k
+    · subst hk; simp
+    · simp only [if_neg hk, List.map_cons, ih, List.mem_cons]
+      have hk2 : ¬ k = k' := fun e => hk e.symm
+      by_cases hm : k ∈ List.map (fun x => x.fst) ps
+      · simp [hm]
+      · simp [hm, hk2]
+
+theorem upsert_nodup {α : Type} (k : Name) (v : α) (ps : List (Name × α)) (h : (ps.map (·.1)).Nodup) :
+    ((upsert k v ps).map (·.1)).Nodup := by
+  rw [upsert_keys]
+  split
+  · exact h
+  · rename_i hn
+    exact List.nodup_append.mpr ⟨h, by simp, by intro a ha b hb; simp at hb; subst hb; intro e; subst e; exact hn ha⟩
+
+/-- the Go view of an object literal never holds a key twice -/
+theorem effectiveProps_nodup {α : Type} (ps : List (Name × α)) : ((effectiveProps ps).map (·.1)).Nodup := by
+  unfold effectiveProps
+  have : ∀ (l acc : List (Name × α)), (acc.map (·.1)).Nodup → ((l.foldl (fun acc p => upsert p.1 p.2 acc) acc).map (·.1)).Nodup := by
+    intro l
+    induction l with
+    | nil => intro acc h; exact h
+    | cons p l ih => intro acc h; exact ih _ (upsert_nodup p.1 p.2 acc h)
+  exact this ps [] (by simp)
+
+theorem filter_keys_nodup {α : Type} (q : Name × α → Bool) (ps : List (Name × α)) (h : (ps.map (·.1)).Nodup) :
+    ((ps.filter q).map (·.1)).Nodup :=
+  List.Nodup.sublist (List.Sublist.map _ List.filter_sublist) h
+
+/-- the table entry of an object in a well-formed store is duplicate-free (an absent entry reads as empty) -/
+theorem objsOk_getD {σ : Store} (h : ObjsOk σ) (r : Nat) : (((σ.objs[r]?).getD []).map (·.1)).Nodup := by
+  cases hr : σ.objs[r]? with
+  | none => simp
+  | some ps => simpa using h r ps hr
+
 theorem define (σ : Store) (env : Nat) (n : Name) (v : Val) : Ext σ (σ.define env n v) := by
   unfold Store.define
   cases henv : σ.envs[env]? with
@@ -161,7 +218,7 @@ theorem define (σ : Store) (env : Nat) (n : Name) (v : Val) : Ext σ (σ.define
   | some fr0 =>
     have hlt : env < σ.envs.length := (List.getElem?_eq_some_iff.mp henv).1
     refine ⟨by simp, ?_, fun i xs h => ⟨xs, h, rfl⟩, Nat.le_refl _, fun _ _ h => h, fun h => h,
-      ⟨[], by simp, rfl, by simp⟩, fun _ => ⟨rfl, rfl, rfl⟩, ⟨[], by simp⟩⟩
+      ⟨[], by simp, rfl, by simp⟩, fun _ => ⟨rfl, rfl, rfl⟩, ⟨[], by simp⟩, fun h => h⟩
     intro i fr h
     by_cases hi : i = env
     · subst hi
@@ -174,7 +231,7 @@ theorem define (σ : Store) (env : Nat) (n : Name) (v : Val) : Ext σ (σ.define
 theorem setArr (σ : Store) (r k : Nat) (x : Val) :
     Ext σ { σ with arrs := σ.arrs.set r ((σ.arrs[r]?.getD []).set k x) } := by
   refine ⟨Nat.le_refl _, fun i fr h => ⟨fr, h, rfl, fun _ h => h⟩, ?_, Nat.le_refl _, fun _ _ h => h, fun h => h,
-    ⟨[], by simp, rfl, by simp⟩, fun _ => ⟨rfl, rfl, rfl⟩, ⟨[], by simp⟩⟩
+    ⟨[], by simp, rfl, by simp⟩, fun _ => ⟨rfl, rfl, rfl⟩, ⟨[], by simp⟩, fun h => h⟩
   intro i xs h
   have hlt : i < σ.arrs.length := (List.getElem?_eq_some_iff.mp h).1
   by_cases hi : i = r
@@ -184,9 +241,20 @@ theorem setArr (σ : Store) (r k : Nat) (x : Val) :
   · refine ⟨xs, ?_, rfl⟩
     simp only [List.getElem?_set, Ne.symm hi, if_false]; exact h
 
-theorem setObj (σ : Store) (r : Nat) (ps : List (Name × Val)) : Ext σ { σ with objs := σ.objs.set r ps } := by
+theorem setObj (σ : Store) (r : Nat) (ps : List (Name × Val))
+    (hps : ObjsOk σ → (ps.map (·.1)).Nodup) : Ext σ { σ with objs := σ.objs.set r ps } := by
   refine ⟨Nat.le_refl _, fun i fr h => ⟨fr, h, rfl, fun _ h => h⟩, fun i xs h => ⟨xs, h, rfl⟩, by simp, fun _ _ h => h, fun h => h,
-    ⟨[], by simp, rfl, by simp⟩, fun _ => ⟨rfl, rfl, rfl⟩, ⟨[], by simp⟩⟩
+    ⟨[], by simp, rfl, by simp⟩, fun _ => ⟨rfl, rfl, rfl⟩, ⟨[], by simp⟩, ?_⟩
+  intro hok i qs h
+  by_cases hi : r = i
+  · subst hi
+    by_cases hlt : r < σ.objs.length
+    · simp only [List.getElem?_set, hlt, if_true, Option.some.injEq] at h
+      subst h; exact hps hok
+    · have : (σ.objs.set r ps)[r]? = none := by simp [List.getElem?_eq_none_iff]; omega
+      simp only at h; rw [this] at h; cases h
+  · simp only [List.getElem?_set, hi, if_false] at h
+    exact hok i qs h
 
 end Ext
 end Borno
